@@ -252,7 +252,7 @@ def insert_exotic(src, kind, slot, nslots, ch, pick):
 # ----------------------------------------------------------------------------- oracle-side facts
 def anntrail(src):
   """Lines (CPython's numbering) on which a bare annotation inside a function ends and which carry
-  more than the annotation: code after it (`x: int; y = 1`) or a `#` inside the annotation itself.
+  more code after the annotation (`x: int; y = 1`, `x: int;`).
   Computed from CPython's ast on the text as given; [] if it does not parse."""
   try:
     with warnings.catch_warnings():
@@ -268,9 +268,9 @@ def anntrail(src):
       if isinstance(ch, ast.AnnAssign) and ch.value is None and infn:
         if ch.end_lineno - 1 < len(lines):
           raw = lines[ch.end_lineno - 1].encode("utf8")
-          before, after = raw[:ch.end_col_offset], raw[ch.end_col_offset:]
+          after = raw[ch.end_col_offset:]
           code_after = after.split(b"#", 1)[0].strip()
-          if code_after or b"#" in before:
+          if code_after:
             out.add(ch.end_lineno)
       walk(ch, infn or isinstance(ch, (ast.FunctionDef, ast.AsyncFunctionDef, ast.Lambda)))
   walk(tree, False)
